@@ -1,10 +1,66 @@
-(** C16 -- property file (draft; known list filled below). *)
-From SF Require Import C16.Fexp.
+(** C16 -- property file.  Contains only: the full statement, the proved statement (closed by [exact]), the
+    instantiation obligation on the table regenerated from /repo, a non-vacuity example and Print Assumptions.
+    The refutations (one per listed defect) are in C16_refuted.v.
+
+    [gen_table]   : every body of base/functions.py and base/function_alternatives.py as [fexp]   (T1)
+    [gen_prims]   : the coercion facts of base/column.py, functions.col/lit, session.format_time,
+                    the engines' execution dialects and what each engine's functions module exports (T1)
+    [gen_entries] : (function, engine, position, call vector) for every function exported by an engine's functions
+                    module and every position where live PySpark 3.5.9 reads a str as a column name *)
+From SF Require Import C16.Fexp C16.Known.
 From Gen Require Import C16Table C16Entries.
 From Coq Require Import String List ZArith. Import ListNotations. Open Scope string_scope.
 
-Definition probe_names : list string := ["c"; "zz9"].
-Definition C16_known : list (string * string * nat) := [].
+(** [probe_names] (the finite bound on column names) and [C16_known] (the listed defects, = findings/C16.known.json)
+    are in theories/C16/Known.v *)
 
+(** instantiation obligation, re-checked against /repo's current source on every run: the decision procedure
+    accepts every decided entry outside the listed defects *)
 Lemma gen_all_ok : all_ok gen_prims gen_table probe_names C16_known gen_entries = true.
 Proof. vm_compute. reflexivity. Qed.
+
+(** the property at full strength: for every function of every engine's functions module, every position where
+    PySpark accepts a column name and every probe name, the name form builds the expression of the col(name) form *)
+Definition C16_full : Prop :=
+  forall e c, In e gen_entries -> In c probe_names -> holds gen_prims gen_table c e = true.
+
+(** what is proved: the same statement for the entries the model decides ([decided]: no Opaque construct is reached
+    in either evaluation -- the others are listed in the evidence and decided by the correspondence run only) and
+    that are not a listed defect *)
+Theorem C16_partial :
+  forall e c, In e gen_entries -> In c probe_names ->
+    decided gen_prims gen_table c e = true -> listed C16_known e = false ->
+    holds gen_prims gen_table c e = true.
+Proof. exact (all_ok_sound gen_prims gen_table probe_names C16_known gen_entries gen_all_ok). Qed.
+Print Assumptions C16_partial.
+
+(** [holds] is equality of the two symbolic results whenever the col() form is a valid call *)
+Corollary C16_partial_eq :
+  forall e c, In e gen_entries -> In c probe_names ->
+    decided gen_prims gen_table c e = true -> listed C16_known e = false ->
+    is_err (res_col gen_prims gen_table c e) = false ->
+    val_eqb (res_str gen_prims gen_table c e) (res_col gen_prims gen_table c e) = true.
+Proof.
+  intros e c He Hc Hd Hl Hne. apply holds_spec; [exact (C16_partial e c He Hc Hd Hl) | exact Hne].
+Qed.
+Print Assumptions C16_partial_eq.
+
+(** the hypotheses are satisfiable by entries that go through engine-specific alternatives:
+    expm1 on DuckDB (expm1_from_exp: exp(col) - lit(1)), isnull on Postgres, date_add on Snowflake *)
+Example C16_domain_nonempty :
+  forallb (fun k => existsb (fun e => if key_eqb k e
+                                      then (if decided gen_prims gen_table "c" e
+                                            then (if listed C16_known e then false
+                                                  else negb (is_err (res_col gen_prims gen_table "c" e)))
+                                            else false)
+                                      else false)
+                            gen_entries)
+          [("expm1", "duckdb", 0%nat); ("isnull", "postgres", 0%nat); ("date_add", "snowflake", 1%nat);
+           ("coalesce", "standalone", 1%nat)] = true.
+Proof. vm_compute. reflexivity. Qed.
+
+(** size of the decided domain, for the evidence *)
+Eval vm_compute in
+  (length gen_entries,
+   length (filter (fun e => decided gen_prims gen_table "c" e) gen_entries),
+   length (filter (fun e => listed C16_known e) gen_entries)).
